@@ -30,6 +30,9 @@ theorem invA_init : InvA init := by
 theorem invA_emit {s : St} (e : Ev) (h : InvA s) : InvA (emit e s) := by
   exact ⟨h.wg, h.regv, h.sorted, h.uniq, h.stopped_iff, h.flagreg, h.notrun, h.nocancel, h.keys, h.clearedDone⟩
 
+theorem invA_rw {s : St} (r : Nat) (h : InvA s) : InvA { s with rw := r } := by
+  exact ⟨h.wg, h.regv, h.sorted, h.uniq, h.stopped_iff, h.flagreg, h.notrun, h.nocancel, h.keys, h.clearedDone⟩
+
 theorem invA_tr {s : St} (tr : List Ev) (h : InvA s) : InvA { s with tr := tr } := by
   exact ⟨h.wg, h.regv, h.sorted, h.uniq, h.stopped_iff, h.flagreg, h.notrun, h.nocancel, h.keys, h.clearedDone⟩
 
@@ -233,7 +236,7 @@ theorem invA_wkStep {s s' : St} {i : Nat} (h : InvA s) (hs : s' ∈ wkStep s i) 
         · intro h'; simp [hpc] at h'
         · intro hst; exact h.nocancel hst i hi
       split at hs
-      · simp only [List.mem_singleton] at hs; subst hs; exact hbase
+      · simp only [List.mem_singleton] at hs; subst hs; exact invA_rw _ hbase
       · rename_i hst
         simp only [List.mem_singleton] at hs; subst hs
         have hcl : s.cleared = false := by
